@@ -88,6 +88,13 @@ def run_case(case, rec):
         f_xz = inputs / 'res.xml.xz'
         f_xz.write_bytes(lzma.compress(data))
         routes['xz'] = f_xz
+        # compressed content under a name that does not say so (recognised by signature, not by suffix)
+        f_gzx = inputs / 'compressed-gz.xml'
+        f_gzx.write_bytes(gzip.compress(data))
+        routes['gz-named-xml'] = f_gzx
+        f_xzx = inputs / r.choice(['compressed-xz.xml', 'compressed-xz.XML', 'compressed-xz'])
+        f_xzx.write_bytes(lzma.compress(data))
+        routes['xz-named-xml'] = f_xzx
         pkg = inputs / 'pkg' / 'mypackage'
         pkg.mkdir(parents=True)
         (pkg / r.choice(['wordnet.xml', 'wordnet.lmf', 'WORDNET', 'wn.xml.txt'])).write_bytes(data)
@@ -105,6 +112,13 @@ def run_case(case, rec):
             t = inputs / f'package.{name}'
             make_tar(pkg, t, mode)
             routes[f'{name}(package)'] = t
+        # an archive whose only member is a compressed resource file
+        t = inputs / 'gzfile.tar'
+        make_tar(f_gz, t, 'w')
+        routes['tar(gz file)'] = t
+        t = inputs / 'xzfile.tar.gz'
+        make_tar(f_xz, t, 'w:gz')
+        routes['tar.gz(xz file)'] = t
         coll = None
         if independent and len(res['lexicons']) > 1:
             coll = inputs / 'coll' / 'mycollection'
